@@ -131,10 +131,12 @@ func (f *fallback) doFallback(ctx context.Context, qCtx *query_context.Context) 
 			respChan <- nil
 			verifpoint.At("fallback.primary.queued", qCtx.Id())
 		} else {
-			close(primDone)
-			verifpoint.At("fallback.primary.signalled", qCtx.Id())
+			// Queue the answer before signalling: once primDone is closed a
+			// standing-by secondary may queue its own answer.
 			respChan <- r
 			verifpoint.At("fallback.primary.queued", qCtx.Id())
+			close(primDone)
+			verifpoint.At("fallback.primary.signalled", qCtx.Id())
 		}
 	}()
 
